@@ -8,7 +8,8 @@ From InfOCF Require Import PyLib TieMax TieLayer TieW TieWTop.
 From InfOCFGen Require Import SrcW.
 From Coq Require Import ZArith.
 From InfOCF Require Import PyLib TieSolver TieMax TieLayer TieLex TieLexTop.
-From InfOCFGen Require Import SrcLex.
+From InfOCFGen Require Import SrcLex SrcWZ3 SrcLexZ3.
+From InfOCF Require Import TieZ3 TieWZ3 TieLexZ3.
 From Coq Require Import ZArith.
 
 (* extended p-entailment (Pinf: extended partition of D + (not B|A), then "no world spares the last layer and satisfies A"):
@@ -74,6 +75,16 @@ Theorem C07_source_lex_inf_extended : forall n D, NoDup (map kz D) -> forall q P
     (trivial n q || b) = ext_spec (worlds n) P q lex_spec.
 Proof. exact src_lex_ext_spec. Qed.
 Print Assumptions C07_source_lex_inf_extended.
+
+(* the alternative (z3) back-ends in extended mode *)
+Theorem C07_source_system_w_z3_extended : forall n q Pc, (forall L, In L Pc -> NoDup (map ckz L)) -> forall u, Pc <> [] ->
+  py_SystemWZ3_inference n (S (length Pc + length (worlds n) + 1)) Pc q true u = Return (w_ext n (acP Pc) q).
+Proof. exact (fun n q Pc Hk u Hne => tie_wz3_inference n q Pc Hk true u Hne). Qed.
+Print Assumptions C07_source_system_w_z3_extended.
+Theorem C07_source_lex_inf_z3_extended : forall n q Pc, (forall L, In L Pc -> NoDup (map ckz L)) -> forall u, Pc <> [] ->
+  py_LexInfZ3_inference n (S (length Pc + length (worlds n) + 1)) Pc q true u = Return (lex_ext n (acP Pc) q).
+Proof. exact (fun n q Pc Hk u Hne => tie_lexz3_inference n q Pc Hk true u Hne). Qed.
+Print Assumptions C07_source_lex_inf_z3_extended.
 
 Example weak_birds : part_strict 4 birds_weak = None
   /\ map (fun s => map (infer 4 s true birds_weak) [q_fp; q_nfp; q_wp]) [SysP; SysZ; SysW; SysLex]
